@@ -8,9 +8,6 @@ import CoseModel.Generated.Facts
 open CoseModel
 namespace C04
 
-/-- the label the lookups use is the `alg` label of the source -/
-theorem facts_alg_label : Facts.consts.lookup "HeaderLabelAlgorithm" = some 1 := by decide
-
 /-- Verification side, all header maps `p`, all verifier algorithms, all external data:
     the check passes exactly when alg is present as an integer equal to the verifier's, or is
     absent and external data is non-empty. -/
